@@ -5,6 +5,7 @@ package ws
 
 import (
 	"bytes"
+	"errors"
 	"fmt"
 	"strings"
 	"syscall"
@@ -108,6 +109,13 @@ func TestC17_ReadAndWriteInFlight(t *testing.T) {
 			srv = connect()
 			reconnected = true
 		}
+		// In a third of the cases the maximum message size is lowered to 1800 bytes: everything the peer sends stays below
+		// it, and so does what the application writes through the message API; caller-built frames (AsyncWriteFrame) of
+		// 2000 bytes are above it, which is the caller's business and must not disturb anything else in flight.
+		lowMax := rapid.IntRange(0, 2).Draw(rt, "lowMax") == 0
+		if lowMax {
+			s.SetMaxMessageSize(1800)
+		}
 		sysx.NoLinger(srv) // closing sends an RST: no TIME_WAIT sockets pile up over thousands of cases
 		defer syscall.Close(srv)
 		defer s.CloseNextLayer()
@@ -149,6 +157,9 @@ func TestC17_ReadAndWriteInFlight(t *testing.T) {
 			r.err = err
 			if r.calls > 1 {
 				fail("%s callback invoked %d times", r.what, r.calls)
+			}
+			if strings.HasPrefix(r.what, "read#") && errors.Is(err, websocket.ErrMessageTooBig) {
+				fail("%s failed with %q although nothing the peer sent exceeds the reader's buffer or the maximum message size (%d)", r.what, err, s.MaxMessageSize())
 			}
 			if inPoll {
 				cbsThisPoll[strings.SplitN(r.what, "#", 2)[0]]++
@@ -281,6 +292,9 @@ func TestC17_ReadAndWriteInFlight(t *testing.T) {
 			writesOut++
 			msgCounter++
 			n := rapid.SampledFrom([]int{0, 1, 100, 126, 2000}).Draw(rt, "wlen")
+			if lowMax && kind == "AsyncWrite" && n > 1800 {
+				n = 1700 // the message API refuses what exceeds the configured maximum; caller-built frames are not subject to it
+			}
 			p := make([]byte, n)
 			for i := range p {
 				p[i] = byte(msgCounter*7 + i)
@@ -288,10 +302,20 @@ func TestC17_ReadAndWriteInFlight(t *testing.T) {
 			if pongFlushPossiblyInFlight && readCb != nil {
 				overlapWrite = true
 			}
+			overMax := lowMax && n > 1800 // a caller-built frame above the configured maximum
+			wireIdx := -1
 			cb := func(err error) {
 				noteCb(r, err)
 				writesOut--
 				log("cb:%s(%v)", r.what, err)
+				switch {
+				case overMax && err != nil && wireIdx >= 0:
+					// whether frames above the maximum are sent or refused is the library's choice: a refused one is not
+					// expected on the wire. Everything else in flight must be unaffected.
+					expWire[wireIdx].optional = true
+				case !overMax && errors.Is(err, websocket.ErrMessageTooBig):
+					fail("%s of %d bytes (maximum message size %d) completed with %q", r.what, n, s.MaxMessageSize(), err)
+				}
 				if err == nil && problem == "" && !quiesce && writeActs[wi%len(writeActs)] == 1 && len(cbs) < 60 {
 					wi++
 					fromCallback = true
@@ -315,6 +339,10 @@ func TestC17_ReadAndWriteInFlight(t *testing.T) {
 			}
 			if open {
 				expWire = append(expWire, expOut{op: rfc6455.OpBinary, payload: p, what: "application message"})
+				wireIdx = len(expWire) - 1
+				if overMax && r.calls > 0 && r.err != nil {
+					expWire[wireIdx].optional = true // refused on the spot
+				}
 			}
 		}
 		peerSend := func(f rfc6455.Frame) {
@@ -551,6 +579,9 @@ func TestC17_ReadAndWriteInFlight(t *testing.T) {
 			switch ending {
 			case "oversized":
 				big := make([]byte, rapid.SampledFrom([]int{65, 300, 2000}).Draw(rt, "bigLen"))
+				if lowMax && len(big) > 1800 {
+					big = big[:300] // (stay below the configured maximum: this ending is about the reader's buffer)
+				}
 				for i := range big {
 					big[i] = byte(0x51 + i)
 				}
@@ -687,7 +718,8 @@ func TestC17_ReadAndWriteInFlight(t *testing.T) {
 					}
 				}
 			}
-			if closes != 1 {
+			if closes > 1 || (closes != 1 && ending != "oversized") {
+				// (after an oversized message the client may or may not announce that it gives up: not C17's business)
 				fail("%d Close frames on the wire after %s, want exactly one", closes, ending)
 			}
 			checkNow()
